@@ -337,8 +337,8 @@ class ReadEvents(InoSpec):
         hv = [("call", self.havoc_maps)]
         self.loops = {
             1: LoopSpec("os.walk(src_path)", self.inv_walk, modifies=[("call", self.havoc_sim)], ghost_start=self.gs_walk),
-            2: LoopSpec("dirnames", self.inv_sim, modifies=[("call", self.havoc_sim)]),
-            3: LoopSpec("filenames", self.inv_sim, modifies=[("call", self.havoc_sim)]),
+            2: LoopSpec("dirnames", self.inv_dirs, modifies=[("call", self.havoc_sim)], ghost_end=self.ge_dir),
+            3: LoopSpec("filenames", self.inv_files, modifies=[("call", self.havoc_sim)]),
             4: LoopSpec("True", self.inv_prologue, modifies=[("call", self.havoc_shared_outside)]),
             5: LoopSpec("Inotify._parse_event_buffer(event_buffer)", self.inv_records, modifies=hv, ghost_start=self.gs_record, ghost_end=self.ge_record),
             6: LoopSpec("self._wd_for_path.copy()", self.inv_rekey, modifies=[("call", self.havoc_rekey)]),
@@ -402,6 +402,7 @@ class ReadEvents(InoSpec):
         self.released_by_me = False
         self.added = []
         self.recs = None
+        self.dvis = z3.IntVal(0)
         self.walk = None
         self.cur = None
         s = self.st(ex)
@@ -504,9 +505,10 @@ class ReadEvents(InoSpec):
     # ---- _recursive_simulate
     def havoc_sim(self, ex):
         self.havoc_maps(ex)
+        self.dvis = ex.fresh_term(z3.IntSort(), "dirs_tried")
 
     def gs_walk(self, ex, k, el=None):
-        pass
+        self.dvis = z3.IntVal(0)
 
     def inv_walk(self, ex, k):
         sc = ex.scope.lookup("events")
@@ -523,6 +525,20 @@ class ReadEvents(InoSpec):
 
     def inv_sim(self, ex, k):
         return self.inv_walk(ex, k)
+
+    def inv_dirs(self, ex, k):
+        return self.inv_walk(ex, k) + [("every listed sub-directory so far was tried (no failure abandons its siblings)", self.dvis == k)]
+
+    def ge_dir(self, ex, k, el=None):
+        self.dvis = k + 1
+
+    def inv_files(self, ex, k):
+        out = self.inv_walk(ex, k)
+        if not isinstance(k, bool) and z3.is_int_value(z3.simplify(k)) and z3.simplify(k).as_long() == 0:
+            dn = ex.scope.lookup("dirnames")
+            if dn is not None and isinstance(dn.vars["dirnames"], VList):
+                out.append(("all sub-directories of this level were tried before its files", self.dvis == dn.vars["dirnames"].n))
+        return out
 
     # ---- re-key loop
     def havoc_rekey(self, ex):
